@@ -33,6 +33,8 @@ SHAPES = {
     "nested": {"shallow": ["top", "mid"], "program": "deep", "edits": [("leafA", 1), ("plus", 1), ("mid", 2)], "ext": "newtop"},
     # a task without provenance beneath the shallow call, with further tasks beneath it
     "noprov": {"shallow": ["top"], "noprov": ["mid"], "program": "deep", "edits": [("leafA", 1), ("plus", 1), ("leafB", 1)]},
+    # the shallow call's child is answered from an equal call made earlier in the same execution (no child jobs)
+    "csehit": {"shallow": ["top"], "program": "seqmidtop", "edits": [("leafA", 1), ("plus", 1), ("leafB", 1)]},
     "guarded": {"shallow": ["guarded"], "program": "guardedmix", "edits": [("leafA", 1), ("recover", 1)]},
 }
 
@@ -52,6 +54,9 @@ def expr(shape, program=None):
     if p == "newtop":
         # a shallow parent call that is new to the database, above a child call (mid(2)) that is already recorded
         return T["top"](2, 6)
+    if p == "seqmidtop":
+        from redun.functools import seq
+        return seq([T["mid"](2), T["top"](2, 3)])
     if p == "top":
         return [T["top"](2, 3), T["mid"](2)]
     if p == "deep":
